@@ -22,6 +22,9 @@ func (d *Driver) Run() error {
 			return fmt.Errorf("harness: step %d: unknown instance %q", n, op.I)
 		}
 		classes := []string{"-"}
+		if op.A == "hold" {
+			classes = []string{"right"}
+		}
 		if op.A == "export" || op.A == "impks" || op.A == "sign" || op.A == "getmn" || op.A == "remove" {
 			switch {
 			case op.CC != "":
@@ -62,7 +65,7 @@ func (d *Driver) Run() error {
 func (d *Driver) step(in *Instance, op Op, cc string) error {
 	t0 := time.Now()
 	d.Ops++
-	l := &Line{T: "op", A: op.A, I: op.I, W: op.W, C: op.C, K: op.K, CC: cc, Got: &Got{}}
+	l := &Line{T: "op", A: op.A, I: op.I, W: op.W, C: op.C, K: op.K, CC: cc, Got: &Got{Int: []IntObs{}}}
 	pre, err := d.view(in)
 	if err != nil {
 		return fmt.Errorf("harness: view before: %v", err)
@@ -76,7 +79,7 @@ func (d *Driver) step(in *Instance, op Op, cc string) error {
 	outs := map[string]string{}
 	var opErr error
 	wd, hasW := d.Job.U.Wal[op.W]
-	if !hasW && op.A != "restart" && op.A != "chpub" {
+	if !hasW && op.A != "restart" && op.A != "chpub" && op.A != "lock" {
 		return fmt.Errorf("harness: unknown wallet %q", op.W)
 	}
 	ref := d.Ref[op.W]
@@ -169,7 +172,7 @@ func (d *Driver) step(in *Instance, op Op, cc string) error {
 		seq := seqOf(in.W.VerifHandler())
 		ws, err := in.W.ImportWalletWithMnemonic(&keystore.WalletParams{
 			Version: keystore.KeystoreVersionLatest, Mnemonic: mn, PrivatePassphrase: []byte(d.Pass[wd.Pass]),
-			Remarks: d.canary, ExternalIndex: uint32(op.K), InternalIndex: 0,
+			Remarks: d.canary, ExternalIndex: uint32(op.K), InternalIndex: IntN,
 			AddressGapLimit: d.Cfg.Wallet.Settings.AddressGapLimit})
 		opErr = err
 		if err == nil {
@@ -177,6 +180,25 @@ func (d *Driver) step(in *Instance, op Op, cc string) error {
 			outs["id"] = ws.WalletID
 			if err := d.waitIdle(in, seq); err != nil {
 				return err
+			}
+			// the change addresses the import restored: managed, committed to by their key, signable
+			l.Got.Int = []IntObs{}
+			for k, target := range ref.IntAddrs {
+				o := IntObs{K: k}
+				if ma, err := in.W.VerifKeystoreManager().GetManagedAddressByStdAddress(target); err == nil {
+					o.Managed = true
+					pub := ma.PubKey()
+					if std, _, err := AddrOfPub(pub); err == nil && std == target {
+						o.Commit = true
+					}
+					var sb [8]byte
+					d.Rnd.Read(sb[:])
+					hash := sha256.Sum256(sb[:])
+					if sig, err := in.W.SignHash(pub, hash[:], []byte(d.Pass[wd.Pass])); err == nil && sig != nil {
+						o.SigOK = sig.Verify(hash[:], pub)
+					}
+				}
+				l.Got.Int = append(l.Got.Int, o)
 			}
 		}
 	case "restart":
@@ -237,6 +259,39 @@ func (d *Driver) step(in *Instance, op Op, cc string) error {
 			l.Got.SigOK = sig.Verify(hash[:], pub)
 			outs["sig"] = hex.EncodeToString(sig.Serialize())
 		}
+	case "hold":
+		// the wallet signs and stays unlocked (the keystore manager's SignHash, as signWitnessTx calls it
+		// for every input of a transaction before it locks the wallet again)
+		if err := needRef(); err != nil {
+			return err
+		}
+		if op.K < 0 || op.K >= len(ref.Addrs) {
+			return fmt.Errorf("harness: index %d beyond the reference table", op.K)
+		}
+		target := ref.Addrs[op.K].Std
+		l.Got.Addr = target
+		km := in.W.VerifKeystoreManager()
+		ma, err := km.GetManagedAddressByStdAddress(target)
+		if err != nil {
+			opErr = err
+			break
+		}
+		pub := ma.PubKey()
+		l.Got.Pub = hex.EncodeToString(pub.SerializeCompressed())
+		if std, _, err := AddrOfPub(pub); err == nil {
+			l.Got.Commit = std
+		}
+		var hb [8]byte
+		d.Rnd.Read(hb[:])
+		hash := sha256.Sum256(hb[:])
+		sig, err := km.SignHash(pub, hash[:], []byte(cand))
+		opErr = err
+		if err == nil && sig != nil {
+			l.Got.SigOK = sig.Verify(hash[:], pub)
+			outs["sig"] = hex.EncodeToString(sig.Serialize())
+		}
+	case "lock":
+		in.W.VerifKeystoreManager().ClearPrivKey()
 	case "getmn":
 		if err := needRef(); err != nil {
 			return err
